@@ -254,7 +254,9 @@ class RecQOp(Op):
             kind = rng.choice(self.kinds)
             if kind == "riterq":
                 yield (kind, freeze(c), None)
-            elif kind == "rvalidq":
+            elif kind in ("rvalidq", "rfirstq"):
+                if kind == "rfirstq" and c["fmt"] == 4 and c["reps"] is None:
+                    c["fmt"] = 3           # get_first_after is defined for series that have a start point
                 yield (kind, freeze(c), gen_probe(rng, c, []))
             else:
                 idx = max(0, rng.choice([0, 1, 2, c["reps"] or 3, (c["reps"] or 4) - 1, 7]))
@@ -268,6 +270,8 @@ class RecQOp(Op):
             return "riterq %s %d" % (rt, c["k"])
         if kind == "rvalidq":
             return "rvalidq %s %d %s" % (rt, 5000, Q.tokens(x))
+        if kind == "rfirstq":
+            return "rfirstq %s %d %s" % (rt, 5000, Q.tokens(x))
         return "ritemq %s %d" % (rt, x)
 
     def impl(self, a):
@@ -291,6 +295,10 @@ class RecQOp(Op):
             nx = rec.get_next(tp) if rec._duration is not None or rec._repetitions == 1 else None
             pv = rec.get_prev(tp) if rec._duration is not None or rec._repetitions == 1 else None
             return "%d %d %s %s" % (ib, iv, pt_str(nx), pt_str(pv))
+        if kind == "rfirstq":
+            if rec._start_point is None:
+                return "_"            # (TypeError / None in the Python: no start point, outside the clause)
+            return pt_str(rec.get_first_after(Q.mk_point(x)))
         try:
             return pt_str(rec[x])
         except IndexError:
@@ -344,6 +352,28 @@ class RecQOp(Op):
                     want = base - (reps - 1 - kk) * L
                 if inst != want:
                     return "%s: point %d is at instant %s, the series has it at %s" % (self.line(a), kk, inst, want)
+            return None
+        if kind == "rfirstq" and c["fmt"] != 4:
+            # the earliest member strictly later than the probe; the first member before the series; None after it
+            v = Q.inst(m, x)
+            if v.denominator != 1:
+                return None          # the property claims get_first_after for whole-second probes (the model: Props/C13r)
+            if v < base:
+                want = base
+            else:
+                k = int((v - base) // L) + 1
+                want = base + k * L if (reps is None or k < reps) else None
+            if out == "_":
+                got = None
+            else:
+                f = out.split()
+                date = (f[0], int(f[1]), int(f[2])) if f[0] == "o" else (f[0], int(f[1]), int(f[2]), int(f[3]))
+                H, M, S = (None if t_ == "_" else F(t_) for t_ in f[4:7])
+                got = (86400 * oracle.date_day_num(m, date) + 3600 * H + 60 * (M or 0) + (S or 0)
+                       - 3600 * int(f[7]) - 60 * int(f[8]))
+            if got != want:
+                return "%s: get_first_after gives %s (instant %s); the earliest later member is at %s" % (
+                    self.line(a), out, got, want)
             return None
         if kind == "rvalidq":
             f = out.split()
